@@ -662,7 +662,10 @@ class Partitioning:
 
         # Necessary to ensure concordant traversal
         for rank in part_ranks:
-            if (rank,) in all_parts and all_parts[(rank,)]:
+            # Note: the rank may also be partitioned as a part of another
+            # tuple of ranks (e.g., by a second flattening)
+            if any(rank in other_ranks and other_ranks != part_ranks and parts
+                   for other_ranks, parts in all_parts.items()):
                 raise ValueError(
                     "Cannot flatten rank " +
                     rank +
